@@ -180,6 +180,10 @@ class Lib:
         if isinstance(a, V.Opaque) or isinstance(b, V.Opaque):
             if ctx.opaque_ok:
                 return V.Opaque("binop")
+            if isinstance(op, ast.Add) and all(
+                    (isinstance(x, V.Opaque) and x.what.startswith("formatted")) or isinstance(x, str)
+                    or (isinstance(x, z3.ExprRef) and z3.is_string(x)) for x in (a, b)):
+                return V.Opaque("formatted string")  # concatenation of message texts: a string nobody inspects
             raise EngineLimit("arithmetic on opaque value")
         if isinstance(a, str) and isinstance(op, ast.Mod):
             return V.Opaque("formatted string")
@@ -217,6 +221,10 @@ class Lib:
         if z3.is_string(ta):
             if isinstance(op, ast.Add):
                 return z3.Concat(ta, tb)
+            if isinstance(op, ast.Div):
+                # pathlib.Path values are represented by strings that are only passed around and compared
+                ASSUMED.setdefault("pathlib./", "Path / x is some path, a function of both operands (never raises)")
+                return self.e.uf("path!join", z3.StringSort(), z3.StringSort(), z3.StringSort())(ta, tb)
             raise EngineLimit("string operator")
         ta, tb = e.to_num(ta), e.to_num(tb)
         if isinstance(op, ast.Add):
@@ -1191,7 +1199,25 @@ class Lib:
     def m_str_split(self, ctx, o, sep=None):
         if isinstance(o, str) and isinstance(sep, str):
             return PyList(o.split(sep))
+        if isinstance(o, z3.ExprRef) and z3.is_string(o) and isinstance(sep, str) and sep:
+            return self.split_symbolic(ctx, o, sep)
         raise EngineLimit("split of a symbolic string")
+
+    def split_symbolic(self, ctx, s, sep: str):
+        """ASSUMED (CPython str.split with a non-empty separator): the result is a non-empty list of strings that
+           contain no separator; it is a function of (s, sep); it has one element, s itself, iff s does not contain sep;
+           the first component is a prefix of s."""
+        ASSUMED.setdefault("str.split", "s.split(sep), sep non-empty: a non-empty list, a function of (s, sep), of strings "
+                           "not containing sep; [s] iff sep does not occur in s; the first component is a prefix of s")
+        sv = z3.StringVal(sep)
+        arr = self.e.uf("str.split!arr", z3.StringSort(), z3.StringSort(), z3.ArraySort(z3.IntSort(), z3.StringSort()))(s, sv)
+        n = self.e.uf("str.split!len", z3.StringSort(), z3.StringSort(), z3.IntSort())(s, sv)
+        ctx.assume(n >= 1)
+        ctx.assume((n == 1) == z3.Not(z3.Contains(s, sv)))
+        ctx.assume(z3.Implies(n == 1, z3.Select(arr, 0) == s))
+        ctx.assume(z3.PrefixOf(z3.Select(arr, 0), s))
+        ctx.assume(z3.Not(z3.Contains(z3.Select(arr, 0), sv)))
+        return SymSeq(arr, n, V.Str, fresh=True)
 
     def m_str_encode(self, ctx, o, enc="utf8"):
         # ASSUMED (CPython): str.encode('utf8') raises UnicodeEncodeError iff the string contains a surrogate
